@@ -23,7 +23,7 @@ def run(tier, seed):
                                  "operations drawn from the whole alphabet (platform, switches, resequence, group/ungroup, sort/"
                                  "reverse/permute/insert/append/pop, copy, export-import, re-parse, shading, shadow removal, port "
                                  "splitting, tcam, notes), 2..25 per history",
-                                 owners={"C02", "C04", "C10", "C11", "C15", "C16", "C19"}, gens=[gen])
+                                 owners={"C02", "C04", "C06", "C10", "C11", "C15", "C16", "C19"}, gens=[gen])
 
 
 def replay(path):
